@@ -374,7 +374,7 @@ func c02GenIncludeFault(r *xrand.Rand, idx int, tier string) *fw.Case {
 	if target == root && len(chain) > 1 && r.Chance(3, 4) {
 		target = chain[1]
 	}
-	kind := []string{"bad-char", "dup-type", "undefined-type", "undefined-tag", "unknown-directive-param", "dup-server", "bad-schema"}[r.Intn(7)]
+	kind := []string{"bad-char", "dup-type", "undefined-type", "undefined-tag", "unknown-directive-param", "dup-server", "bad-schema", "chained-type-fault", "chained-type-fault"}[r.Intn(9)]
 	var faultLines []string
 	faultLine := 0 // index within faultLines of the directive line the diagnostic must point into
 	switch kind {
@@ -400,6 +400,21 @@ func c02GenIncludeFault(r *xrand.Rand, idx int, tier string) *fw.Case {
 		uniq++
 		faultLines = []string{fmt.Sprintf("TYPE @bs%d", uniq), "{\"a\": }"}
 		faultLine = 1
+	case "chained-type-fault":
+		// a chain of user types @ch_0 -> @ch_1 -> ... whose LAST link has a fault that only loading/checking finds; the
+		// earlier links stand at the top of the root file (declared first), the faulty one at the end of the target file
+		uniq++
+		n := r.Range(2, 4)
+		var heads []string
+		for i := 0; i < n-1; i++ {
+			heads = append(heads, fmt.Sprintf("TYPE @ch%d_%d", uniq, i), "{", fmt.Sprintf("  \"next\": @ch%d_%d", uniq, i+1), "}")
+		}
+		if r.Bool() {
+			heads = append(heads, fmt.Sprintf("GET /ch%d", uniq), fmt.Sprintf("  200 @ch%d_0", uniq))
+		}
+		root.lines = append(append([]string{root.lines[0]}, heads...), root.lines[1:]...)
+		bad := []string{"\"x\": 1 // {enum: @nosuchenum}", "\"x\": 1 // {min: \"q\"}", "\"x\": 1 // {precision: 2}", "\"x\": \"s\" // {type: \"integer\"}"}[r.Intn(4)]
+		faultLines = []string{fmt.Sprintf("TYPE @ch%d_%d", uniq, n-1), "{", "  \"padding\": 1,", "  " + bad, "}"}
 	}
 	// the fault goes to the end of the target file (after its includes: top level again)
 	at := len(target.lines)
@@ -421,7 +436,7 @@ func c02GenIncludeFault(r *xrand.Rand, idx int, tier string) *fw.Case {
 			}
 			lo = off
 			hi = off + len(f.lines[at+faultLine])
-			if kind == "dup-type" || kind == "dup-server" || kind == "bad-char" || kind == "unknown-directive-param" {
+			if kind == "dup-type" || kind == "dup-server" || kind == "bad-char" || kind == "unknown-directive-param" || kind == "chained-type-fault" {
 				// whole directive (keyword line .. end of its last line)
 				hi = off
 				for i := at; i < len(f.lines); i++ {
